@@ -6,7 +6,7 @@
 From Tetl Require Import Lib.Base C02.Safe.
 From Tetl Require C08.Model C08.Spec C08.Core C08.ProofsFind C08.ProofsCmp C08.ProofsPtr C08.ProofsSafe C08.Properties.
 From Tetl Require C04.Model C04.ModelQ C04.Spec C04.SpecQ C04.Inv C04.InvOps C04.Total C04.QueryOk C04.Properties C04.Properties_query.
-From Tetl Require C10.Model C10.Spec C10.ProofsFmt C10.Properties.
+From Tetl Require C10.Model C10.Spec C10.ProofsFmt C10.ProofsStrtoC C10.Properties.
 From Tetl Require C18.Model C18.Spec C18.ProofsCtype C18.ProofsStr C18.Properties.
 Local Open Scope Z_scope.
 
@@ -140,16 +140,16 @@ Proof.
     + destruct H as (buf' & e & H & L). exists buf', true, e. split; assumption.
   - intros t cap v Hb Hv. rewrite (C10.Properties.C10_to_string_correct t cap v Hb Hv).
     destruct (length (to_text 10 v) <=? cap)%nat; [eapply ok_no_ub; reflexivity|apply contract_no_ub; reflexivity].
-  - intros t skipws plus s base Hb Hr. exact (ok_returns_ok _ _ _ (C10.Properties.C10_to_integer_correct t skipws plus s base Hb Hr)).
-  - intros t s b v0 Hb Hr. exact (ok_returns_ok _ _ _ (C10.Properties.C10_from_chars_correct t s b v0 Hb Hr)).
+  - intros t skipws plus s base Hb Hr. pose proof (C10.Properties.C10_to_integer_correct t skipws plus s base Hb Hr) as H. ok_from H.
+  - intros t s b v0 Hb Hr. pose proof (C10.Properties.C10_from_chars_correct t s b v0 Hb Hr) as H. ok_from H.
   - intros t s b Hb.
     assert (D : (b = 0 \/ 2 <= b <= 36) \/ (b < 0 \/ b = 1 \/ 36 < b)) by lia.
     destruct D as [D|D].
-    + split; [exact (ok_returns_ok _ _ _ (C10.Properties.C10_strto_correct t s b Hb D))
-             |exact (ok_returns_ok _ _ _ (C10.Properties.C10_strto_integer_correct t s b Hb D))].
-    + split; [exact (ok_returns_ok _ _ _ (C10.Properties.C10_strto_bad_base t s b D))|].
-      pose proof (C10.Properties.C10_strto_bad_base t s b D) as E. unfold strto_m in E.
-      destruct (strto_integer_m t s b) as [x| |k|]; try discriminate. eexists; reflexivity.
+    + assert (Hw : C10.ProofsStrtoC.cxx_width (bits t)) by (right; exact Hb).
+      pose proof (C10.Properties.C10_strto_correct t s b Hw D) as H.
+      split; [pose proof H as H'; ok_from H'|ok_from H].
+    + pose proof (C10.Properties.C10_strto_bad_base t s b D) as E. split; [pose proof E as E'; ok_from E'|].
+      unfold strto_m in E. destruct (strto_integer_m t s b) as [x| |k|]; try discriminate. eexists; reflexivity.
 Qed.
 Print Assumptions C02_charconv_in_bounds.
 End Conv.
